@@ -1,7 +1,8 @@
 /-
   Prtpy.Model.BinCompletion — packing/bin_completion.py and packing/bin_completion_utils.py as they are after
   fixes F5 (no stale iteration), F6 (BFD with the caller's manager) and F7 (multiset-aware dominance shortcut),
-  for list input (item = value; with names that differ from values the code computes on names: finding KF4).
+  for list input (item = value: `binCompletion`) and, after fix F15, for items with a value function (`binCompletionNamed`:
+  the search runs on the values and the items are put back).
 -/
 import Prtpy.Model.Simple
 namespace Prtpy
@@ -147,6 +148,33 @@ def binCompletion (B : Nat) (items : List Nat) (fuel : Nat) : Except Err (List (
       let lb := lowerBound B items
       if bfd.lists.length = lb then .ok bfd.lists
       else .ok (search B lb fuel [⟨sortDesc id items, [], 0⟩] bfd.lists)
+
+/-! ### named items (after fix F15): the search runs on the values, the items are put back into the bins -/
+
+/-- `items_of_value[x].pop(0)`: the first item of `l` whose value is `x`, and `l` without it -/
+def takeValue {α : Type} (v : α → Nat) (x : Nat) : List α → Option (α × List α)
+  | [] => none
+  | a :: l => if v a = x then some (a, l) else (takeValue v x l).map fun p => (p.1, a :: p.2)
+
+/-- one bin of values back to items: value by value, each time the first remaining item of that value -/
+def relabelBin {α : Type} (v : α → Nat) : List Nat → List α → List α × List α
+  | [], rest => ([], rest)
+  | x :: xs, rest =>
+    match takeValue v x rest with
+    | some (a, rest') => let r := relabelBin v xs rest'; (a :: r.1, r.2)
+    | none => relabelBin v xs rest        -- (cannot happen for the bins of a packing of these items: `relabel_values`)
+
+/-- all bins, in order -/
+def relabel {α : Type} (v : α → Nat) : List (List Nat) → List α → List (List α)
+  | [], _ => []
+  | b :: bs, rest => let r := relabelBin v b rest; r.1 :: relabel v bs r.2
+
+/-- `bin_completion(binner, binsize, items)` for items with a value function (after fix F15): refuse an oversize item, drop the
+    zero-valued items, run the search on the values, put the items back value by value in input order -/
+def binCompletionNamed {α : Type} (v : α → Nat) (B : Nat) (items : List α) (fuel : Nat) : Except Err (List (List α)) :=
+  match binCompletion B (items.map v) fuel with
+  | .error e => .error e
+  | .ok bins => .ok (relabel v bins (items.filter fun a => v a != 0))
 
 end BC
 end Prtpy
